@@ -1,1 +1,14 @@
-pub fn placeholder() {}
+//! otmodel — independent encoders, decoders and reference semantics written from the OpenType /
+//! WOFF / Type 2 specifications. This crate must never depend on allsorts.
+
+pub mod be;
+pub mod sfnt;
+pub mod tables;
+
+pub const fn tag(s: &[u8; 4]) -> u32 {
+    ((s[0] as u32) << 24) | ((s[1] as u32) << 16) | ((s[2] as u32) << 8) | (s[3] as u32)
+}
+
+pub fn tag_str(t: u32) -> String {
+    t.to_be_bytes().iter().map(|b| if b.is_ascii_graphic() || *b == b' ' { *b as char } else { '?' }).collect()
+}
